@@ -326,3 +326,65 @@ pub fn run_midcall(sim: &Sim, _idx: u64) {
         v14(sim, "run-hangs", "the scenario did not finish within the virtual horizon".into());
     }
 }
+
+/// The peer retires connections *gracefully* (HTTP/2 GOAWAY after `max_connection_age`) while the
+/// channel is idle or between calls: not a failure of any call, and every later call issued at a
+/// quiescent point must succeed on a fresh connection without the application rebuilding the
+/// channel.
+pub fn run_goaway(sim: &Sim, _idx: u64) {
+    let lazy = sim.chance(1, 2);
+    let age = Duration::from_millis(sim.pick(&[5u64, 20, 200, 1_000]));
+    let rounds = sim.range(2, 5);
+    let netcfg = if sim.chance(1, 2) { NetCfg::ideal() } else { NetCfg { stall_pct: 0, ..NetCfg::draw(sim) } };
+    let keepalive: Option<(Duration, Option<Duration>, bool)> = if sim.chance(1, 3) { Some((Duration::from_secs(sim.pick(&[1u64, 7])), None, sim.chance(1, 2))) } else { None };
+    sim.nontrivial();
+    sim.sample(|| format!("{} channel; server max_connection_age {age:?}; {rounds} rounds of calls at quiescent points; keep-alive {keepalive:?}", if lazy { "lazy" } else { "eager" }));
+    sim.ev(|| format!("config: lazy={lazy} age={age:?} rounds={rounds} keepalive={keepalive:?}"));
+    sim.fault("server-retires-connections-gracefully");
+    let out = run_sim(sim, Duration::from_secs(100_000), || async {
+        let (net, connector, rx) = net_and_connector(sim, netcfg, vec![]);
+        let handler = Handler::new(sim);
+        for i in 0..32u64 {
+            handler.add_script(i, Script { msgs: vec![b"pong".to_vec()], ..Default::default() });
+        }
+        let _srv = spawn_server::<std::future::Pending<()>>(&handler, &no_comp(), &ServerOpts { max_connection_age: Some(age), ..Default::default() }, rx, None);
+        let ep = endpoint(&ClientOpts { keepalive, ..Default::default() });
+        let ch = if lazy {
+            ep.connect_with_connector_lazy(connector.clone())
+        } else {
+            match tokio::time::timeout(Duration::from_secs(60), ep.connect_with_connector(connector.clone())).await {
+                Ok(Ok(c)) => c,
+                other => return v14(sim, "eager-connect-fails-although-endpoint-reachable", format!("{:?}", other.map(|r| r.map(|_| ()).map_err(|e| e.to_string())))),
+            }
+        };
+        let mut id = 1u64;
+        for round in 0..rounds {
+            // quiescent: well past the age of whatever connection exists, so that it has been retired
+            tokio::time::sleep(age * 3 + Duration::from_secs(sim.pick(&[1u64, 30]))).await;
+            let conns_before = net.n_conns();
+            let mut last = None;
+            // a call may still meet the dying connection (its GOAWAY not yet seen); the property
+            // asks that the *next* call succeeds
+            for _attempt in 0..2 {
+                last = one_call(&ch, id).await;
+                id += 1;
+                match &last {
+                    None => return v14(sim, "call-hangs", format!("round {round}: a call after a graceful GOAWAY did not complete within 120 virtual seconds")),
+                    Some(Ok(_)) => break,
+                    Some(Err(_)) => tokio::time::sleep(Duration::from_millis(1)).await,
+                }
+            }
+            match last {
+                Some(Ok(_)) => sim.probe("call-after-graceful-goaway-succeeds"),
+                Some(Err((c, m))) => return v14(sim, "call-fails-although-endpoint-reachable", format!("round {round}: after the server retired the connection gracefully two successive calls failed: {c:?} {m:?}")),
+                None => {}
+            }
+            if round > 0 && net.n_conns() > conns_before {
+                sim.probe("reconnected-after-goaway");
+            }
+        }
+    });
+    if out.is_none() {
+        v14(sim, "run-hangs", "the scenario did not finish within the virtual horizon".into());
+    }
+}
